@@ -21,7 +21,7 @@ import lp
 import views
 
 PID = "C03"
-PROPS = ["Aldy.Props.C03"]
+PROPS = ["Aldy.Props.C03", "Aldy.Props.C03Spec"]
 TRUSTED_EXTRA = ["GeneView serialiser (harness/views.py)"]
 ASSUMPTIONS = ["depth vectors on a 0.01 grid"]
 SPEC_EPS = Fraction(1, 100000)
@@ -408,6 +408,8 @@ def tie(ctx):
         lookup = {escape_name(f"CN_{n}_{i}"): [n, i] for n in list(d["configs"]) + ["PSEUDO"] for i in range(-1, d["max_cn"] + 1)}
         reqs.append({"op": "cn_fold", "del": real["gene"].deletion_allele(),
                      "yields": [[lib.frac(o), [lookup.get(v, ["?" + v, 0]) for v in sol]] for (_, o, sol) in real["yields"]]})
+        # spec level (Props/C03Spec): documented score of every yielded selection, decided by Lean without the ILP
+        reqs.append({**reqs[real["i0"]], "op": "cn_spec", "selections": [[lookup.get(v, ["?" + v, 0]) for v in sol] for (_, o, sol) in real["yields"]]})
         runs.append((d, real))
     # _filter_configs
     fcases = filter_cases(r, pool, 60 if quick else 600)
@@ -430,7 +432,7 @@ def tie(ctx):
         reqs.append(rq)
     outs = lib.driver_batch(reqs)
 
-    fam = {k: {"cases": 0, "disagreements": []} for k in ("cn_structure", "cn_fold", "cn_filter", "cn_decision")}
+    fam = {k: {"cases": 0, "disagreements": []} for k in ("cn_structure", "cn_fold", "cn_filter", "cn_decision", "cn_spec_score")}
     violations = []
     stats = collections.Counter()
     famhit = collections.Counter()
@@ -451,6 +453,14 @@ def tie(ctx):
         real_fold = [(tuple(sorted(c for c, k in s.solution.items() for _ in range(k))), Fraction(s.score)) for s in real["result"]]
         if lean_fold != real_fold:
             fam["cn_fold"]["disagreements"].append({"why": f"returned structures {real_fold[:3]} differ from the fold of the yields {lean_fold[:3]}", "input": d})
+        # cn_optimum_is_spec_min: the objective reported for a yielded selection is its documented score
+        osp = outs[real["i0"] + 2]
+        for (_, o, sol), sp in zip(real["yields"], osp["spec"]):
+            fam["cn_spec_score"]["cases"] += 1
+            if not osp["rows_nodup"]:
+                stats["spec_hypothesis_fails"] += 1
+            elif abs(float(Fraction(sp)) - o) > 1e-6:
+                fam["cn_spec_score"]["disagreements"].append({"why": f"objective {o} reported for the selection {sorted(sol)} differs from its documented score specCN = {float(Fraction(sp))}", "input": d})
         why, st = oracle(d, real)
         stats["oracle_assignments"] += st["assignments"]
         if why:
